@@ -279,6 +279,7 @@ def rule_nan_policy(ctx):
     ev = run(ctx, fi)
     okm = True
     nmask = 0
+    bool_paths = []
     for p in ret_paths(ev):
         has_nan = [pol for a, pol in p.guards if a[0] == 'call' and T.call_name(a) == 'anynan']
         masked = [pol for a, pol in p.guards if a[0] == 'call' and T.call_name(a) == 'isMaskedArray']
@@ -298,12 +299,27 @@ def rule_nan_policy(ctx):
                 continue
         if masked == [True]:
             nmask += 1
+            isbool = [pol for a, pol in p.guards if a[0] == 'cmp' and a[1] == '==' and a[3] == const('b') and 'dtype' in T.show(a[2])]
+            if isbool == [True]:
+                bool_paths.append(p)
+                # all / any over nothing: the identity of the reduction (all -> True, any -> False); bool(NaN) is True
+                fv = v[2][0] if (v[0] == 'call' and T.call_name(v) == 'filled' and v[2]) else None
+                good_fill = fv is not None and (fv == T.mkcmp('==', ('attr', SELF, '__name__'), const('all')) or
+                                                (fv[0] == 'ifexp' and 'all' in T.show(fv)) or fv in (T.CONST_TRUE, T.CONST_FALSE))
+                if not good_fill or fv in (T.CONST_TRUE, T.CONST_FALSE):
+                    ctx.violated('R4', fi, 'boolean masked result', 'a masked boolean result (all / any of an all-NaN slice) must be filled with the identity of the reduction - '
+                                 'True for all, False for any; got %s' % (T.show(fv) if fv else T.show(v)[:60]), node=p.node)
+                    okm = False
+                continue
             if not (v[0] == 'call' and T.call_name(v) == 'filled' and v[2] and T.dotted(v[2][0]) == 'np.nan'):
                 ctx.violated('R4', fi, 'return ' + T.show(v)[:140], 'a masked result must be converted with .filled(np.nan): slices that are entirely NaN '
                              'must give NaN, not the data under the mask', node=p.node)
                 okm = False
-    if okm and nmask:
-        ctx.holds('R4', '_MaskedArrayFunc: mask NaNs, np.ma function, masked results filled with NaN')
+    if okm and nmask and not bool_paths:
+        ctx.violated('R4', fi, 'boolean results filled with NaN', 'every masked result is converted with .filled(np.nan), also the boolean ones of all / any: NaN cast to bool is True, so '
+                     'any(axis=d, skipna=True) reports True for a slice that is entirely NaN (it has no true element)', node=fi.node)
+    elif okm and nmask:
+        ctx.holds('R4', '_MaskedArrayFunc: mask NaNs, np.ma function, masked results filled with NaN (boolean ones with the identity of the reduction)')
     # _median_with_nan
     fi = ctx.fn(TR + '_median_with_nan')
     ev = run(ctx, fi, mode='join')
